@@ -167,6 +167,32 @@ def check(P, R):
             R.ob('C13.f', fr_, c, ok, detail='' if ok else 'a payload read is not bounded by the buffer size: more than limit + one buffer can be pulled in before the 413',
                  why='rejected after reading at most the limit plus one buffer')
 
+    # each part is handed to _body_read in the iteration that read it (limit check / spooling happen per buffer)
+    for fq in (f'{BM}:_iter_body', f'{BM}:_iter_chunked'):
+        fr_ = P.func(fq)
+        for c in [c for c in c04.read_param_calls(fr_) if c.args and not isinstance(c.args[0], ast.Constant)]:
+            var = T.assigned_name_of_call(c)
+            lps = T.loops_of(c)
+            ys = T.yield_nodes(fr_.cfg, within=lps[0].body) if lps else []
+            ok = bool(var) and any(var in names_loaded(y.ast) and isinstance([x for x in walk_shallow(y.ast) if isinstance(x, ast.Yield)][0].value, ast.Name) for y in ys)
+            R.ob('C13.f', fr_, c, ok, text='the part read is yielded, as it is, in the same iteration', detail='' if ok else
+                 'parts are collected and handed over later (e.g. one bytes object per chunk): _body_read checks max_body_size and spools only per '
+                 'delivered piece, so a single huge chunk is read into memory completely before the 413',
+                 why='rejected after reading at most the limit plus one buffer; large bodies kept on disk', key_extra='handover')
+    # the in-memory threshold handed to the reader is the configured one, unclamped
+    fb_ = P.func(f'{BM}:BodyMixin._body')
+    for c in [x for x in walk_shallow(fb_.node) if isinstance(x, ast.Call) and dotted(x.func) == '_body_read']:
+        a1 = c.args[1] if len(c.args) > 1 else None
+        cn = fb_.cfg.node_of_stmt(c)[0]
+        cl = fb_.rd.closure_nodes(a1, cn) if a1 is not None else []
+        calls_ = [x for x in cl if isinstance(x, ast.Call)]
+        ok = a1 is not None and any(isinstance(x, ast.Attribute) and dotted(x) == 'self.config.max_memfile_size' for x in cl) and not calls_ \
+            and not any(isinstance(x, (ast.BinOp, ast.IfExp)) for x in cl)
+        R.ob('C13.c', fb_, c, ok, text=f'buffer / spill threshold argument = self.config.max_memfile_size', detail='' if ok else
+             f'the threshold handed to the reader is `{short(a1)}`' + (f' = {short(calls_[0])}' if calls_ else '') +
+             ', not the configured max_memfile_size itself: bodies between the configured threshold and the substituted value stay in memory',
+             why='a body larger than the in-memory threshold is kept on disk', key_extra='threshold-arg')
+
     check_memory_budget(P, R)
 
 
@@ -214,6 +240,22 @@ def check_memory_budget(P, R):
             oks = bool(d) and all(x.kind == 'assign' and isinstance(x.value, ast.BinOp) and isinstance(x.value.op, ast.Sub) for x in d)
             R.ob('C13.e', f, c, oks, text=f'{sz.id} = end - start', detail='' if oks else 'read size is not end - start of the section',
                  key_extra=f'size#{i}', nontrivial=False)
+    # the total reported to the caller (which lowers the shared budget by it) counts every read
+    rets_ = [n for n in g.nodes if n.kind == 'stmt' and isinstance(n.ast, ast.Return) and isinstance(n.ast.value, ast.Name)]
+    for i, c in enumerate(reads):
+        cn = g.node_of_stmt(c)[0]
+        sz = c.args[0] if c.args else None
+        if not isinstance(sz, ast.Name) or not rets_:
+            continue
+        tot = rets_[0].ast.value.id
+        szdefs = set(rd.at(cn, sz.id))
+        counted = [n for n in g.nodes for d in rd.gen.get(n, []) if d.name == tot and d.value is not None and sz.id in names_loaded(d.value)
+                   and set(rd.at(n, sz.id)) == szdefs]
+        ok = bool(counted) and all(not (g.can_reach(g.entry, cn, avoid_nodes=counted) and g.can_reach(cn, r, avoid_nodes=counted)) for r in rets_)
+        R.ob('C13.e', f, c, ok, text=f'{short(c)}: its size is added to the total `{tot}` returned to the caller', detail='' if ok else
+             f'the bytes of this read are tested against the budget but not added to `{tot}`: iter_items lowers the shared budget only by what read() '
+             f'reports, so the limit applies per field instead of to the whole form (n fields load n x threshold bytes)',
+             why='form text larger than the threshold is refused rather than loaded', key_extra=f'counted#{i}')
     # file parts are not read
     wins = [c for c in walk_shallow(f.node) if isinstance(c, ast.Call) and dotted(c.func) == 'BytesIOProxy']
     ok = False
